@@ -2,10 +2,11 @@
     The byte-level theorems at the end prove, for ALL field values, that the raw bytes of the main IPv4 reply forms
     built around the bytes the real builder emits (ICMP time-exceeded / unreachable quoting 28 bytes of the probe,
     echo reply, direct TCP SYN-ACK / RST) are recognised by the whole receive path (frame parse, header decode,
-    ICMP classification, matcher).  PARTIAL: the IPv6 forms, IP options / extension headers and longer quotes are
+    ICMP classification, matcher); likewise for IPv6 (time-exceeded quoting the whole probe, echo reply, UDP errors).
+    PARTIAL: IP options / extension headers, truncated IPv6 quotes, TCP over IPv6 and the SACK forms are
     covered by the correspondence (independent builders) rather than by a byte-level theorem. *)
 From Coq Require Import List ZArith Bool.
-From TR Require Import Lib.Bytes Wire.Decode Wire.Build Drv.Drivers Spec.C01 Proofs.DrvProofs Proofs.ByteComplete Eng.Engine Eng.Timed Proofs.EngComplete.
+From TR Require Import Lib.Bytes Wire.Decode Wire.Build Drv.Drivers Spec.C01 Proofs.DrvProofs Proofs.ByteComplete Proofs.ByteComplete6 Eng.Engine Eng.Timed Proofs.EngComplete.
 Import ListNotations.
 Open Scope Z_scope.
 
@@ -78,6 +79,41 @@ Theorem C02_bytes_tcp_direct_reply c st now tos i1 i2 f1 ttl0 c1 c2 q1 q2 q3 q4 
   = Hop (s_ttl lastp) [t1; t2; t3; t4] (now - s_time lastp) true.
 Proof. exact (@tcp_direct_reply_recognised c st now tos i1 i2 f1 ttl0 c1 c2 q1 q2 q3 q4 fl w1 w2 k1 k2 g1 g2 l1 l2 l3 l4 t1 t2 t3 t4 lastp). Qed.
 Print Assumptions C02_bytes_tcp_direct_reply.
+
+(** ICMP over IPv6: a time-exceeded from ANY router (any traffic class / flow label / hop limit / checksum / unused bytes) quoting the whole probe the model builder emits for TTL t is the hop for t *)
+Theorem C02_bytes_icmp6_time_exceeded c st t now s w1 w2 w3 hl0 k1 k2 u1 u2 u3 u4 router :
+  c_variant c = VIcmp -> len (c_local c) = 16 -> len (c_target c) = 16 -> len router = 16 ->
+  0 <= c_first c -> c_last c <= 255 -> in_ttl_range c t = true -> 0 <= c_echo_id c < 65536 ->
+  find_ttl st t = Some s ->
+  let probe := icmp6_probe (c_local c) (c_target c) (c_echo_id c) t in
+  recv c st (hdr6 96 w1 w2 w3 0 57 58 hl0 router (c_local c) ([3; 0; k1; k2; u1; u2; u3; u4] ++ probe)) now
+  = Hop t router (now - s_time s) false.
+Proof. exact (@icmp6_te_recognised c st t now s w1 w2 w3 hl0 k1 k2 u1 u2 u3 u4 router). Qed.
+Print Assumptions C02_bytes_icmp6_time_exceeded.
+
+(** ICMP over IPv6: the echo reply from the target (any trailing data) is the destination hop *)
+Theorem C02_bytes_icmp6_echo_reply c st t now s w1 w2 w3 l1 l2 hl0 k1 k2 data :
+  c_variant c = VIcmp -> len (c_local c) = 16 -> len (c_target c) = 16 ->
+  0 <= c_first c -> c_last c <= 255 -> in_ttl_range c t = true -> 0 <= c_echo_id c < 65536 ->
+  256 * l1 + l2 = 8 + len data ->
+  find_ttl st t = Some s ->
+  recv c st (hdr6 96 w1 w2 w3 l1 l2 58 hl0 (c_target c) (c_local c)
+                  ([129; 0; k1; k2; (c_echo_id c / 256) mod 256; c_echo_id c mod 256; (t / 256) mod 256; t mod 256] ++ data)) now
+  = Hop t (c_target c) (now - s_time s) true.
+Proof. exact (@icmp6_echo_reply_recognised c st t now s w1 w2 w3 l1 l2 hl0 k1 k2 data). Qed.
+Print Assumptions C02_bytes_icmp6_echo_reply.
+
+(** UDP over IPv6: time-exceeded or ANY destination-unreachable code quoting the whole probe; destination iff the responder is the target *)
+Theorem C02_bytes_udp6_icmp_error c st t now s ty co w1 w2 w3 L1 L2 hl0 k1 k2 u1 u2 u3 u4 router :
+  c_variant c = VUdp -> len (c_local c) = 16 -> len (c_target c) = 16 -> len router = 16 ->
+  0 <= c_sport c < 65536 -> 0 <= c_dport c < 65536 -> 0 <= t <= 255 ->
+  ((ty = 3 /\ co = 0) \/ ty = 1) -> 256 * L1 + L2 = 61 + t ->
+  find (fun x => s_id x =? udp6_id t) st = Some s ->
+  let probe := udp6_probe (c_local c) (c_target c) (c_sport c) (c_dport c) t in
+  recv c st (hdr6 96 w1 w2 w3 L1 L2 58 hl0 router (c_local c) ([ty; co; k1; k2; u1; u2; u3; u4] ++ probe)) now
+  = Hop (s_ttl s) router (now - s_time s) (bytes_eqb router (c_target c)).
+Proof. exact (@udp6_icmp_error_recognised c st t now s ty co w1 w2 w3 L1 L2 hl0 k1 k2 u1 u2 u3 u4 router). Qed.
+Print Assumptions C02_bytes_udp6_icmp_error.
 
 (** engine lift, ANY script (loss, duplicates, reordering, noise, rogue replies): every reply that is readable by the deadline, for a TTL whose probe was sent, is accepted *)
 Theorem C02_engine_accepts_every_timely_reply p script r :
